@@ -369,7 +369,7 @@ fn own_prover_case<G: CurveTag>(chi: &mut Choices, prog: &Program, col: &mut Col
     use crate::ownprover::{own_prove, Cheat};
     let shape = prog.shape();
     let d: Fr<G> = ScalarSpec::gen_nonzero(chi).to_f();
-    let cheat: Cheat<Fr<G>> = match chi.weighted(&[20, 30, 10, 10, 12, 8, 10]) {
+    let cheat: Cheat<Fr<G>> = match chi.weighted(&[20, 28, 9, 9, 11, 7, 9, 7]) {
         0 => Cheat::None,
         1 => Cheat::TShift([1usize, 3, 4, 5, 6][chi.below(5)], d),
         2 => Cheat::EBlind(d),
@@ -377,7 +377,9 @@ fn own_prover_case<G: CurveTag>(chi: &mut Choices, prog: &Program, col: &mut Col
         4 => Cheat::LVec(chi.below(shape.padded()), d),
         5 if shape.padded() > shape.n() && shape.n() > 0 => Cheat::NoPadding,
         5 => Cheat::TShift(1, d),
-        _ => Cheat::MaskMismatch(d),
+        6 => Cheat::MaskMismatch(d),
+        _ if shape.n2 == 0 => Cheat::JunkPhase2(chi.byte() as u64),
+        _ => Cheat::EBlind(d),
     };
     let label = format!("own prover: {:?}", cheat).chars().take(60).collect::<String>();
     let op = own_prove::<G>(prog, prog.seed, &cheat);
